@@ -395,3 +395,38 @@ CONTRACTS["scale.d3_bisect"] = {
                 ("left_not_greater", "forall(lambda i: implies(0 <= i < result, a[i] <= x))"),
                 ("right_greater", "forall(lambda i: implies(result <= i < len(a), a[i] > x))")],
 }
+
+
+# ---- C16: the choice of the tick method -----------------------------------------------------------------------------------
+_STEPS = [1e3, 5e3, 15e3, 3e4, 6e4, 3e5, 9e5, 18e5, 36e5, 108e5, 216e5, 432e5, 864e5, 1728e5, 6048e5, 2592e6, 7776e6, 31536e6]
+
+
+def _setup_tickmethod(E, P, env):
+    outs = []
+    for (p, ts, g) in new_time_scale(E, P, "s"):
+        e = dict(env)
+        e["self"] = ts
+        outs.append((p, e))
+    return outs[:1]     # tickMethod does not read the linear part: one representative state
+
+
+CONTRACTS["scale.TimeScale.tickMethod"] = {
+    "props": ["C16", "C14"], "inline": True, "setup": _setup_tickmethod,
+    "params": {"extent": ["list", "real", "real"], "count": "int"},
+    # a domain of at least one second per requested tick and at most a year per tick: one of the 18 calendar rows is chosen
+    "requires": ["2 <= count <= 50", "extent[0] < extent[1]", "(extent[1] - extent[0]) / count >= 1000",
+                 "(extent[1] - extent[0]) / count < 31536000000"],
+    # the chosen row's nominal spacing is within a factor sqrt(5) < 2.4 of the requested spacing (neighbouring rows differ
+    # by at most a factor 5; the closer one in ratio is taken) and the skip is a positive integer
+    "ensures": [("listed_row_within_ratio",
+                 "any([result is self._methods[j] and (extent[1] - extent[0]) / count <= 2.4 * %r[j] and %r[j] <= 2.4 * ((extent[1] - extent[0]) / count) "
+                 "for j in range(18)])" % (_STEPS, _STEPS)),
+                ("positive_integer_skip", "is_int(result[1]) and result[1] >= 1")],
+}
+CONTRACTS["scale.TimeScale.tickMethod@subsecond"] = {
+    "props": ["C16"], "inline": True, "setup": _setup_tickmethod, "func_alias": "scale.TimeScale.tickMethod",
+    "params": {"extent": ["list", "real", "real"], "count": "int"},
+    "requires": ["2 <= count <= 50", "extent[0] < extent[1]", "(extent[1] - extent[0]) / count < 1000"],
+    # below one second per tick: linear millisecond ticks with the step of C13's tick rule
+    "ensures": [("millisecond_ticks", "result[1] > 0 and count * result[1] > 0.7 * (extent[1] - extent[0]) and count * result[1] <= 1.75 * (extent[1] - extent[0])")],
+}
